@@ -15,7 +15,7 @@ from ..core import Check, MachineryError, Timeout, watchdog
 from ..jsonv import jv, regex_facts, has_big
 
 PROP_NAMES = ["a", "b", "name", "class", "def", "a-b", "a_b", "1x", "@p", "items", "keys", "update", "get", "values", "pop", "copy", "x y", "A", "a.b", "type", "self"]
-INSTANCES = [None, True, False, 0, 1, 2, 3, 5, 10, -1, -5, 1.5, 2.5, 0.5, 3.0, "", "a", "ab", "abc", "abcd", "1", "2022-03-04", "x1", "A",
+INSTANCES = [None, True, False, 0, 1, 2, 3, 4, 5, 10, -1, -2, -5, 1.5, 2.5, 0.5, 3.0, -0.5, 1.25, "", "a", "ab", "abc", "abcd", "1", "2022-03-04", "x1", "A",
              [], [1], [1, 2], [1, "a"], ["a"], [1, 1], [1, 2, 3], [[1]], [None], [1.5],
              {}, {"a": 1}, {"a": "x"}, {"a": 1, "b": 2}, {"b": 2}, {"a": 1, "zz": 3}, {"a": [1]}, {"a": {"b": 1}}, {"name": "n", "class": 1},
              {"items": 1}, {"a-b": 1, "a_b": 2}, {"keys": "k", "update": 1}, {"1x": 1, "@p": 2}, {"a": None}, {"a": 1.5}, {"x y": 1, "A": 2}]
@@ -119,6 +119,36 @@ FIXED = [
 ]
 
 
+def keyword_grid():
+    """every numeric / length / count keyword of the fragment x two bounds; all INSTANCES (which hold bound - 1, bound, bound + 1 for
+    each of them) are run against every schema of the grid"""
+    out = []
+    for t in ("integer", "number"):
+        for kw in ("minimum", "exclusiveMinimum", "maximum", "exclusiveMaximum"):
+            for b in (0, 2):
+                out.append({"type": t, kw: b})
+        out.append({"type": t, "minimum": 1, "exclusiveMaximum": 3})
+        out.append({"type": t, "exclusiveMinimum": 1, "maximum": 3})
+        out.append({"type": t, "multipleOf": 2})
+    out.append({"type": "number", "multipleOf": 0.5})
+    for kw in ("minLength", "maxLength"):
+        for b in (1, 2, 3):
+            out.append({"type": "string", kw: b})
+    out.append({"type": "string", "minLength": 2, "maxLength": 3})
+    for kw in ("minItems", "maxItems"):
+        for b in (1, 2):
+            out.append({"type": "array", kw: b})
+            out.append({"type": "array", "items": {"type": "integer"}, kw: b})
+    out.append({"type": "array", "uniqueItems": True})
+    out.append({"type": "array", "items": {"type": "integer"}, "uniqueItems": True, "maxItems": 2})
+    for kw in ("minProperties", "maxProperties"):
+        for b in (1, 2):
+            out.append({"type": "object", "properties": {"a": {"type": "integer"}}, "additionalProperties": True, kw: b})
+    out.append({"type": "object", "properties": {"a": {"type": "integer"}, "b": {"type": "integer"}}, "required": ["a"], "additionalProperties": False})
+    out.append({"type": "object", "properties": {"a": {"type": "integer"}, "b": {"type": "integer"}}, "dependentRequired": {"b": ["a"]}})
+    return out
+
+
 def to_json(x):
     from utype import JSONEncoder
     return json.loads(json.dumps(x, cls=JSONEncoder))
@@ -130,6 +160,7 @@ def main():
     rng = random.Random(ck.seed)
     from utype import Options, type_transform
     from utype.specs.json_schema.parser import JsonSchemaParser
+    FIXED.extend(g for g in keyword_grid() if g not in FIXED)
     schemas = list(FIXED) + [gen_schema(rng, rng.choice([1, 2, 2, 3])) for _ in range(6000 if thorough else 900)]
     records, n = [], 0
     strict = Options(no_explicit_cast=True, no_data_loss=True)
@@ -160,12 +191,12 @@ def main():
                 continue
             n += 1
             rec = {"id": "c15-%d" % n, "kind": "value", "schema": jv(s), "v": jv(out), "pm": regex_facts(s, out), "built": True, "exc": "",
-                   "src": json.dumps(s)[:300], "inst": json.dumps(j)[:80] + " -> " + json.dumps(out)[:80], "sobj": s}
+                   "src": json.dumps(s)[:300], "inst": json.dumps(j)[:80] + " -> " + json.dumps(out)[:80], "sobj": s, "jin": j, "jout": out}
             if has_big(rec["v"]) or has_big(rec["schema"]):
                 continue
             records.append(rec)
     byid = {r["id"]: r for r in records}
-    res = tlc.judge("Trace_SchemaParse", "Trace_SchemaParse.cfg", [{k: v for k, v in r.items() if k not in ("src", "inst", "sobj")} for r in records], workers=16)
+    res = tlc.judge("Trace_SchemaParse", "Trace_SchemaParse.cfg", [{k: v for k, v in r.items() if k not in ("src", "inst", "sobj", "jin", "jout")} for r in records], workers=16)
     ck.mc(res, "Trace")
     if res.distinct != len(records):
         raise MachineryError("trace acceptance: TLC visited %d states, expected %d" % (res.distinct, len(records)))
@@ -179,7 +210,8 @@ def main():
     for t in res.tagged("VIOL"):
         r = byid[t[1]]
         ck.violation(scenario_key(r, t[2]), t[2], r)
-    ck.rule = ("schemas = 33 fixed + random compositions (depth 1-3) of the supported keywords, typed and untyped, with 21 property names incl. "
+    ck.rule = ("schemas = 41 fixed + a grid of every numeric / length / count keyword x two bounds (all instances, which hold bound - 1, bound, "
+               "bound + 1) + random compositions (depth 1-3) of the supported keywords, typed and untyped, with 21 property names incl. "
                "Python keywords, non-identifiers, mapping-method names and names colliding after sanitising; instances = 50 JSON values (22 sampled per "
                "schema in the quick tier) converted under no_explicit_cast + no_data_loss; distinct_nontrivial = distinct schemas built and distinct "
                "(schema, instance -> returned value) pairs judged")
@@ -211,7 +243,24 @@ def scenario_key(r, clause):
     s = r["sobj"]
     if clause == "Builds":
         return "C15|Builds|%s" % r["exc"].split(":")[0] + "|" + cause_of_build(s, r["exc"])
-    return "C15|Sound|" + cause_of_unsound(s)
+    cause = cause_of_unsound(s)
+    if cause == "typed-schema" and lost_method_named_key(r.get("jin"), r.get("jout")) and any("minProperties" in x for x in walk(s) if isinstance(x, dict)):
+        cause = "minProperties-with-method-named-key-dropped"
+    return "C15|Sound|" + cause
+
+
+SCHEMA_METHODS = {"update", "pop", "copy", "clear", "setdefault", "popitem"}
+
+
+def lost_method_named_key(jin, jout):
+    """an additional key named like a method the Schema class defines is never kept (BaseParser.exclude_vars), whatever additionalProperties says"""
+    if isinstance(jin, dict) and isinstance(jout, dict):
+        if any(k in SCHEMA_METHODS and k not in jout for k in jin):
+            return True
+        return any(lost_method_named_key(v, jout.get(k)) for k, v in jin.items())
+    if isinstance(jin, list) and isinstance(jout, list):
+        return any(lost_method_named_key(a, b) for a, b in zip(jin, jout))
+    return False
 
 
 def has_untyped_constraint(s):
